@@ -11,11 +11,11 @@ import re
 
 import facts
 from facts import REPO, Program, extract, show, call_obj, call_args, walk
-from e1_paths import peel_cond
+from e1_paths import peel_cond, CFG, single_def
 from e7_shapes import Shapes
 from report import Check
 
-UNITS = ["src/Matrix/AMatrixDense.cpp", "src/Matrix/AMatrix.cpp", "src/Matrix/MatrixRectangular.cpp",
+UNITS = ["src/Basic/VectorHelper.cpp", "src/Matrix/AMatrixDense.cpp", "src/Matrix/AMatrix.cpp", "src/Matrix/MatrixRectangular.cpp",
          "src/Matrix/MatrixSquareSymmetric.cpp", "src/Matrix/MatrixSquareGeneral.cpp", "src/Matrix/AMatrixSquare.cpp",
          "src/LinearOp/CholeskyDense.cpp"]
 # kernels that are only meaningful for a square matrix (the caller checks isSquare first): R == C is their precondition
@@ -243,6 +243,163 @@ def omp_rule(prog, chk, control_only=False):
     return nreg
 
 
+ACCESSORS = {"getValue": (0, 1), "setValue": (0, 1), "_getValue": (0, 1), "_setValue": (0, 1), "addValue": (0, 1), "updValue": (1, 2),
+             "_isPhysicallyPresent": (0, 1), "_isIndexValid": (0, 1), "isValid": (0, 1)}
+
+
+def _strip(n):
+    while n is not None and n["k"] == "Cast":
+        n = n["c"][0]
+    return n
+
+
+def _recv(c):
+    o = call_obj(c)
+    if o is None or o["k"] == "This":
+        return "this"
+    return show(o)
+
+
+class Ranges:
+    """symbolic range of int expressions: ('rows'|'cols', receiver) when the value is known to lie in 0..dim-1"""
+    def __init__(self, f):
+        self.f = f
+        self.lb = {}
+        for loop in f.walk():
+            if loop["k"] == "For" and loop["c"][1] is not None:
+                c = _strip(loop["c"][1])
+                if c["k"] == "BinOp" and c.get("op") == "<" and _strip(c["c"][0]) is not None and _strip(c["c"][0])["k"] == "DeclRefExpr":
+                    self.lb.setdefault(_strip(c["c"][0])["d"], []).append(c["c"][1])
+        # assignments to local vectors
+        self.vdefs = {}
+        for x in f.walk():
+            if x["k"] == "VarDecl" and x.get("c") and "Vector" in (x.get("t") or ""):
+                self.vdefs.setdefault(x["d"], []).append(x["c"][0])
+            elif x["k"] in ("Assign", "OpCall") and x.get("op") == "=" and len(x.get("c") or []) == 2:
+                l = _strip(x["c"][0])
+                if l is not None and l["k"] == "DeclRefExpr" and l.get("dk") == "var" and "Vector" in (l.get("t") or ""):
+                    self.vdefs.setdefault(l["d"], []).append(x["c"][1])
+
+    def dimsym(self, e, depth=0):
+        e = _strip(e)
+        if e is None or depth > 4:
+            return None
+        if e["k"] == "MCall":
+            s = (e.get("callee") or "").split("::")[-1]
+            if s in ("getNRows", "getNCols"):
+                return ("rows" if s == "getNRows" else "cols", _recv(e))
+        if e["k"] == "DeclRefExpr" and e.get("dk") == "var":
+            d = single_def(self.f, e["d"])
+            if d is not None and d is not e:
+                return self.dimsym(d, depth + 1)
+        if e["k"] == "MemberExpr" and e.get("mk") == "field" and e["n"] in ("_nRows", "_nCols"):
+            b = (e.get("c") or [None])[0]
+            return ("rows" if e["n"] == "_nRows" else "cols", "this" if (b is None or b["k"] == "This") else show(b))
+        return None
+
+    def elems(self, e, depth=0):
+        """set of range symbols of the ELEMENTS of a vector-valued expression (None entries = unknown)"""
+        e = _strip(e)
+        if e is None or depth > 4:
+            return {None}
+        while e["k"] in ("Construct", "Temp", "Bind") and len(e.get("c") or []) == 1:
+            e = _strip(e["c"][0])
+            if e is None:
+                return {None}
+        if e["k"] in ("Call", "MCall") and e.get("callee"):
+            s = e["callee"].split("::")[-1]
+            a = call_args(e)
+            if s == "sequence" and a and "VectorHelper" in e["callee"]:
+                # VH::sequence(n [, ideb]) : 0..n-1 when ideb is absent / 0
+                if len(a) < 2 or a[1] is None or a[1]["k"] == "DefaultArg" or (a[1]["k"] == "Int" and a[1]["v"] == 0):
+                    return {self.dimsym(a[0])}
+            if s == "complement" and a:
+                return self.elems(a[0], depth + 1)
+            return {None}
+        if e["k"] == "DeclRefExpr" and e.get("dk") == "var" and e["d"] in self.vdefs:
+            out = set()
+            for d in self.vdefs[e["d"]]:
+                ds = _strip(d)
+                # `v = f(.., v)` : the self reference adds nothing
+                out |= self.elems(d, depth + 1) if not (ds is not None and ds["k"] == "DeclRefExpr" and ds.get("d") == e["d"]) else set()
+            return out or {None}
+        return {None}
+
+    def rng(self, e):
+        e = _strip(e)
+        if e is None:
+            return set()
+        if e["k"] == "DeclRefExpr" and e.get("d") in self.lb:
+            return {self.dimsym(b) for b in self.lb[e["d"]]} - {None}
+        if e["k"] in ("OpCall", "Index") and len(e.get("c") or []) == 2 and (e["k"] == "Index" or e.get("op") == "[]"):
+            return self.elems(e["c"][0]) - {None}
+        return set()
+
+
+def rule_d(prog, chk):
+    """C11d: element access M(r, c): an index that is known to range over the COLUMN count of M is not used as its row
+    index (and conversely) unless M is square on every path (class derived from AMatrixSquare, or guarded by isSquare())"""
+    n = nk = 0
+    for f in sorted(prog.funcs, key=lambda x: (x.file, x.line)):
+        if f.body is None or f.cfg is None:
+            continue
+        R = None
+        g = None
+        ordn = {}
+        for c in f.calls():
+            s = (c.get("callee") or "").split("::")[-1]
+            if c["k"] != "MCall" or s not in ACCESSORS or "Matrix" not in (c.get("cls") or ""):
+                continue
+            a = call_args(c)
+            ri, ci = ACCESSORS[s]
+            if len(a) <= ci:
+                continue
+            if R is None:
+                R = Ranges(f)
+            M = _recv(c)
+            rr, cc = R.rng(a[ri]), R.rng(a[ci])
+            n += 1
+            if rr or cc:
+                nk += 1
+            wrong = [("row", x) for x in rr if x == ("cols", M)] + [("column", x) for x in cc if x == ("rows", M)]
+            key = "C11d|%s/%d|%s(%s,%s)" % (f.name, len(f.params), s, show(a[ri])[:15], show(a[ci])[:15])
+            ordn[key] = ordn.get(key, 0) + 1
+            key += "#%d" % ordn[key]
+            if not wrong:
+                chk.ob("C11d", "%s: %s on %s uses row / column indexes of the matching dimension" % (f.name, show(c)[:45], M), f.loc(c), True,
+                       key=key, nontrivial=bool(rr or cc))
+                continue
+            chk.analysed(f)
+            # square receiver ?
+            o = call_obj(c)
+            cls = re.sub(r"^(const )?(class )?|[ *&]+$|\bconst\b", "", (o.get("t") if o is not None else "") or "").strip() or (c.get("cls") or "")
+            square = cls == "AMatrixSquare" or "AMatrixSquare" in prog.bases(cls) or (M == "this" and f.cls and (f.cls == "AMatrixSquare" or "AMatrixSquare" in prog.bases(f.cls)))
+            wit = None
+            if not square:
+                if g is None:
+                    g = CFG(f)
+
+                def eo(blk, k, s_, M=M):
+                    cnd = g.cond(blk["b"])
+                    if cnd is None or len(blk["s"]) != 2:
+                        return True
+                    core, pol = peel_cond(cnd)
+                    core = _strip(core)
+                    if core is not None and core["k"] == "MCall" and (core.get("callee") or "").split("::")[-1] == "isSquare" and _recv(core) == M:
+                        return not (((k == 0) == pol) is True)       # the edge on which isSquare() holds establishes R == C
+                    return True
+                wit = g.search(g.entry_pos(), is_target=lambda y, c=c: y["i"] == c["i"], edge_ok=eo) if g.pos_of(c) else None
+                square = wit is None and g.pos_of(c) is not None
+            what, sym = wrong[0]
+            chk.ob("C11d", "%s: %s on %s: the %s index ranges over the %s count, allowed only for a square matrix" % (
+                       f.name, show(c)[:45], M, what, "column" if sym[0] == "cols" else "row"), f.loc(c), square,
+                   detail=None if square else "the %s index of this access ranges over 0..%s(%s)-1: for a rectangular matrix it addresses "
+                   "elements outside the matrix or the transposed ones" % (what, "ncols" if sym[0] == "cols" else "nrows", M),
+                   key=key, path=None if square or wit is None else g.describe(wit))
+    chk.floor("C11d", n, 150)
+    chk.floor("C11d-ranged", nk, 80)
+
+
 def main(tier):
     chk = Check("C11", tier,
                 "Static shape typing of the Eigen kernels of the dense matrix class: (rows x cols) of every Eigen expression is inferred "
@@ -269,6 +426,21 @@ def main(tier):
     nctl = omp_rule(cprog, ctrl)
     flagged = [o for o in ctrl.obs if o["verdict"] == "violation"]
     clean = [o for o in ctrl.obs if o["verdict"] == "ok"]
+    rule_d(prog, chk)
+    # C11e: the two copy operations of the matrix / vector classes carry the same members (copyrule.py); the sparse class
+    # keeps its back-end flag next to two storages, so a member left behind changes every later operation
+    import copyrule
+    extra = [os.path.join(REPO, "src/Matrix", x) for x in sorted(os.listdir(os.path.join(REPO, "src/Matrix"))) if x.endswith(".cpp")]
+    extra = [u for u in extra if u not in units]
+    mprog = Program().load_dir(extract(extra, "C11m-" + tier)) if extra else Program()
+    mprog.load_dir(d)
+    dh, excluded = facts.extract_headers("C11h-" + tier)
+    mprog.load_dir(dh)
+    chk.units += [u for u in mprog.units if u not in chk.units]
+    ne = copyrule.copy_agreement(mprog, chk, "C11e", classes=[c for c in mprog.classes if re.match(r"(A?Matrix|Vector|Cholesky|Table|NF_Triplet)", c)])
+    chk.floor("C11e", ne, 25)
+    import c11_gating
+    c11_gating.rule_f(prog, chk, ["src/Basic/VectorHelper.cpp"], 8)
     chk.ob("C11c", "positive control: the racy region of witness/omp_control.cpp is flagged and the reduction region is not",
            "witness/omp_control.cpp", nctl == 2 and len(flagged) == 1 and len(clean) == 1,
            detail="the OpenMP rule no longer recognises its control unit (regions=%d, flagged=%d)" % (nctl, len(flagged)),
